@@ -260,3 +260,51 @@ Proof.
   - eexists; eexists; eexists. repeat split; reflexivity.
   - eexists; eexists; eexists. repeat split; reflexivity.
 Qed.
+
+(* ------------------------------------------------------------------------------------------ *)
+(* THE MODEL IS THE C TEXT (coq/TrWrite.v): lbuf_wr and write_fully of /repo/lbuf.c under FAULTS.  The two functions are translated
+   by tools/c2clite.py (coq/GenCFuncs.v, whitelist tools/c2clite.d/99a_write.list) and RUN by the checked semantics of coq/CLite.v;
+   write(2) and ftruncate(2) are calls to untranslated functions, answered by an oracle (coq/CLiteExt.v: callx) that is the kernel
+   of the model: block ks of the memory holds the fault schedule still to come (IoDefs.outcome, one per write(2) call, consumed in
+   order; exhausted = every further call succeeds in full), block kl the log of the system calls made (TrWrite.event).
+   For EVERY oracle that answers the two calls as that kernel does, EVERY schedule, every buffer in memory (lines_at: struct lbuf,
+   line table, one NUL-terminated block per line), every range: lbuf_wr returns, the bytes that reached the file and the schedule
+   left over are exactly IoDefs.write_all's over the payloads of IoDefs.lbuf_wr, the return value is 0 exactly when no outcome the
+   run consumed was an error (a short count is retried, an error behind the last call is not reached), and the log ends with
+   ftruncate(fd, wsz) exactly in that case -- what IoDefs.save_opened assumes of lbuf_wr and C03_failure_surfaces builds on. *)
+From NV Require CLite CLiteProps GenCFuncs CLiteExt TrWrite.
+Section C03_translated_write.
+Import CLite CLiteProps GenCFuncs CLiteExt TrWrite.
+
+Theorem C03_tr_lbuf_wr : forall ext ks kl m lb bln lbs lines fd beg en s lg d fuel,
+  kernel_oracle ext ks kl -> world_at ks kl m s lg -> lines_at ks kl m lb bln lbs lines ->
+  (en <= length lines)%nat -> (Z.of_nat (length lines) <= 2147483647)%Z ->
+  (Z.of_nat (length (concat lines)) <= 4611686018427387904)%Z ->
+  (length s + 2 <= fuel)%nat -> (en - beg + 2 <= fuel)%nat ->
+  let w := IoDefs.lbuf_wr lines beg en in
+  let '(dd, ok, r) := IoDefs.write_all (outp w) s in
+  exists ev bufblk' used,
+    callx ext cprog fuel (S (S (S d))) F_lbuf_wr [VPtr lb 0; VInt fd; VInt (Z.of_nat beg); VInt (Z.of_nat en)] m
+    = Ok (VInt (if ok then 0 else 1),
+          wm ks kl m bufblk' r (lg ++ ev ++ if ok then [EvTrunc fd (Z.of_nat (wsz w))] else [])) /\
+    reached ev = dd /\ s = used ++ r /\ (ok = false <-> In IoDefs.OErr used).
+Proof. exact tr_lbuf_wr_faults. Qed.
+Print Assumptions C03_tr_lbuf_wr.
+
+(* not vacuous, and the translated lbuf_wr RUNS under faults (TrWrite.ex_wr: the buffer "ab\n", "c\n", a line of 4096 bytes; fd 7):
+   an error behind the last call is not reached (0, truncation); a short count is retried from the advanced pointer; an error on
+   the retry surfaces as 1 with the bytes already accepted in the file and no truncation -- as IoDefs.write_all says *)
+Example C03_tr_nonvacuous :
+  lines_at 5 6 (ex_mem []) 0 1 [2; 3; 4]%nat ex_lines /\ kernel_oracle (sys 5 6) 5 6 /\
+  ex_wr [OOk; OOk; IoDefs.OErr]
+    = Some (VInt 0, enc_log [EvWrite 7 [97; 98; 10; 99; 10]%N 5; EvWrite 7 ex_long 4096; EvTrunc 7 4101]) /\
+  IoDefs.write_all (outp (IoDefs.lbuf_wr ex_lines 0 3)) [OOk; OOk; IoDefs.OErr] = ([97; 98; 10; 99; 10]%N ++ ex_long, true, [IoDefs.OErr]) /\
+  ex_wr [OShort 2; OOk; OShort 100; OOk]
+    = Some (VInt 0, enc_log [EvWrite 7 [97; 98; 10; 99; 10]%N 2; EvWrite 7 [10; 99; 10]%N 3;
+                             EvWrite 7 ex_long 100; EvWrite 7 (skipn 100 ex_long) 3996; EvTrunc 7 4101]) /\
+  ex_wr [OShort 2; IoDefs.OErr; OOk] = Some (VInt 1, enc_log [EvWrite 7 [97; 98; 10; 99; 10]%N 2; EvWrite 7 [10; 99; 10]%N (-1)]) /\
+  IoDefs.write_all (outp (IoDefs.lbuf_wr ex_lines 0 3)) [OShort 2; IoDefs.OErr; OOk] = ([97; 98]%N, false, [OOk]).
+Proof.
+  split; [apply ex_lines_at|]. split; [apply sys_kernel; discriminate|]. vm_compute. repeat split.
+Qed.
+End C03_translated_write.
